@@ -173,11 +173,23 @@ where
                 let rng = TestRng::from_seed(RngAlgorithm::ChaCha, &shard_seed(seed, prop, shard));
                 let mut runner = TestRunner::new_with_rng(config, rng);
                 let failed_here = std::cell::Cell::new(false);
+                // shrinking is bounded by wall-clock as well (failing cases that wait for a
+                // delivery that never comes take seconds each): after the budget every further
+                // candidate counts as passing, which ends the shrink at the smallest failure so far
+                let failed_at: std::cell::Cell<Option<Instant>> = std::cell::Cell::new(None);
+                let shrink_budget = std::time::Duration::from_secs(
+                    std::env::var("XSV_SHRINK_SECS").ok().and_then(|v| v.parse().ok()).unwrap_or(90),
+                );
                 let last_fail: std::cell::RefCell<Option<Fail>> = std::cell::RefCell::new(None);
                 let res = std::panic::catch_unwind(std::panic::AssertUnwindSafe(|| {
                     runner.run(&strategy(), |case| {
                         if !failed_here.get() && stop.load(Ordering::SeqCst) {
                             return Ok(());
+                        }
+                        if let Some(t) = failed_at.get() {
+                            if t.elapsed() > shrink_budget {
+                                return Ok(());
+                            }
                         }
                         match test(&case) {
                             Ok(info) => {
@@ -200,6 +212,9 @@ where
                                     stats.lock().unwrap().evaluations += 1;
                                 }
                                 failed_here.set(true);
+                                if failed_at.get().is_none() {
+                                    failed_at.set(Some(Instant::now()));
+                                }
                                 stop.store(true, Ordering::SeqCst);
                                 *last_fail.borrow_mut() = Some(f.clone());
                                 Err(TestCaseError::fail(f.msg))
